@@ -381,7 +381,9 @@ def risky_edit(rnd, spec, objs=None):
             return None
         import numpy as np
         mx = float(np.max(np.asarray(live.value["value"].values._data, dtype=float)))
-        return {"op": "set", "obj": n, "attr": "fixed_nb_of_instances", "value": ["q", float(np.ceil(mx)) + rnd.choice([0, 0, 1]), "dimensionless"],
+        # (beyond 1e6 instances the need is only known to a few ulps: leave a relative margin so that a fresh build agrees)
+        need = float(np.ceil(mx)) if mx < 1e6 else float(np.ceil(mx * (1 + 1e-9)))
+        return {"op": "set", "obj": n, "attr": "fixed_nb_of_instances", "value": ["q", need + rnd.choice([0, 0, 1]), "dimensionless"],
                 "kind": "risky_" + k}
     if k == "zero_duration":
         # fails inside a per-pattern dict update, after the fresh (empty) dict has been installed
@@ -410,4 +412,5 @@ def fix_count_edit(rnd, spec, objs):
     import numpy as np
     raw = objs[n].raw_nb_of_instances
     mx = float(np.max(np.asarray(raw.value["value"].values._data, dtype=float))) if not isinstance(raw, E.EmptyExplainableObject) else 0.0
-    return {"op": "set", "obj": n, "attr": "fixed_nb_of_instances", "value": ["q", float(np.ceil(mx)) + rnd.choice([0, 1, 3, 7]), "dimensionless"], "kind": "fix_count"}
+    need = float(np.ceil(mx)) if mx < 1e6 else float(np.ceil(mx * (1 + 1e-9)))
+    return {"op": "set", "obj": n, "attr": "fixed_nb_of_instances", "value": ["q", need + rnd.choice([0, 1, 3, 7]), "dimensionless"], "kind": "fix_count"}
